@@ -14,8 +14,7 @@ from common import *
 from contracts import StructSpec
 import life_core as L
 from life_core import Part, Member
-from c14 import ext_vtr
-from c02 import CXX_EXT
+from life_core import ext_vtr, CXX_EXT
 
 RULE = 'R-LIFE-VEC'
 REQUIRED = {'vector': 8, '~vector': 1, 'operator=': 2, 'invalidate': 1, 'reserve': 1, 'changeBuffer': 1, 'clear': 1,
@@ -99,11 +98,13 @@ def member_for(f, sz, tier):
             return None
         return Member(value_parts(ST, P[2], pos), note='precondition begin() <= pos <= end()')
     if b == 'insert' and P == ['this', 'pos', 'first', 'last'] and pty == [VT, VT, VT]:
-        return Member([Part(lab(cs) + ',pos=begin()+%d,first=begin()+%d,last=begin()+%d' % (k, a, c), this=cs,
-                            args={'pos': ('slot', k), 'first': ('slot', a), 'last': ('slot', c)})
-                       for cs in ST for k in range(cs[0] + 1) for a in range(cs[0] + 1) for c in range(a, cs[0] + 1)],
-                      note='contract of the implementation: [first,last) is a range of *this (it is addressed by offsets '
-                           'from m_data), begin() <= pos <= end()')
+        parts = [Part(lab(cs) + ',pos=begin()+%d,first=begin()+%d,last=begin()+%d' % (k, a, c), this=cs,
+                      args={'pos': ('slot', k), 'first': ('slot', a), 'last': ('slot', c)})
+                 for cs in ST for k in range(cs[0] + 1) for a in range(cs[0] + 1) for c in range(a, cs[0] + 1)]
+        parts += [Part(lab(cs) + ',pos=begin()+%d,[first,last)=foreign range of %d' % (k, n), this=cs,
+                       args={'pos': ('slot', k), 'first': ('range', n, 'last')})
+                  for cs in ST for k in range(cs[0] + 1) for n in counts]
+        return Member(parts, note='begin() <= pos <= end(); [first,last) is a range of *this or a range owned by the caller')
     if b == 'erase' and P == ['this', 'newend'] and pty == [VT]:
         return Member([Part(lab(cs) + ',newend=begin()+%d' % k, this=cs, args={'newend': ('slot', k)})
                        for cs in ST for k in range(cs[0] + 1)], note='precondition begin() <= newend <= end()')
@@ -137,6 +138,7 @@ def layout_for(mod, f):
 
 
 def run_life(rep, repo, tier):
+    rep.explanation = (rep.explanation or '') + EXPLANATION
     rep.assumptions += ['lifetime rules: element special members and operator new do not throw (only the normal edge of an '
                         'invoke is followed)', 'lifetime rules: iterator arguments point into the vector at positions <= '
                         'size(); operator[]/at below size(); front/back/pop_back on a non-empty vector']
@@ -165,23 +167,27 @@ def run_life(rep, repo, tier):
     rep.floor(RULE + ':event', 40)
     rep.floor(RULE + ':return', 90)
     rep.floor(RULE + ':block', 60)
-    if st['partitions'] < (2500 if tier != 'thorough' else 20000):
+    rep.floor(RULE + ':result', 8)
+    if st['partitions'] < (3000 if tier != 'thorough' else 12000):
         raise AnalysisBroken('lifetime rules: only %d (member, partition) pairs analysed' % st['partitions'])
 
 
 EXPLANATION = (
-    ' Element lifetimes (rule R-LIFE-VEC): slot typestate RAW/LIVE over every heap block of igris::vector<VTr>, decided by '
-    'trace partitioning: each member is interpreted once per entry state with m_size in 0..3 and m_capacity in '
-    'm_size..4 (plus the block-less state m_data == nullptr; 0..5 / ..6 in the thorough tier), per position 0..m_size of '
-    'its iterator/index arguments, per count 0..5, for a value argument owned by the caller as well as one that is an '
-    'element of the vector itself, and for the assignments per state of the other vector and for self-assignment; growth '
-    'paths are covered because every state with m_size == m_capacity is in the partition. Loops then run on concrete '
-    'bounds and every slot index is a constant; element contents stay abstract. Decided per (member, partition): '
-    'constructor calls hit RAW slots, destructor calls / assignments / reads as a copy or move source hit LIVE slots, '
-    'no event touches a deallocated block, operator delete receives a block without LIVE slots exactly once, at every '
-    'return the block in m_data is [0,m_size) LIVE / rest RAW (constructors start without a block, after the destructor '
-    'no block holds a LIVE slot), and a block no longer referenced was deallocated. Lifetimes are decided for these sizes '
-    'only; the claim for larger sizes rests on the uniformity of the code: the element loops of vector.h and of the '
-    'std::move/move_backward/copy helpers have no size-dependent case other than empty/non-empty range, '
-    'size == capacity (growth) and position == end, all of which the partition covers. Not decided: exception paths, '
-    'the std_portable.h vector twin, the int instantiation (no lifetime events).')
+    ' Element lifetimes (rule R-LIFE-VEC): slot typestate RAW/LIVE over every heap block of igris::vector<VTr>, decided '
+    'by trace partitioning: every member is interpreted once per entry state with m_size in 0..4 and m_capacity in '
+    'm_size..5 plus the block-less state m_data == nullptr (0..7 / ..8 in the thorough tier), per position 0..m_size of '
+    'its iterator/index arguments, per count 0..6, for a value argument owned by the caller as well as one that is an '
+    'element of the vector itself, for source ranges inside the vector and owned by the caller, and in the two-vector '
+    'members per state of the other vector and for self-assignment; growth paths are covered because every state with '
+    'm_size == m_capacity is in the partition. Loops then run on concrete bounds and every slot index is a constant; '
+    'element contents stay abstract. Decided per (member, partition): constructor calls hit RAW slots; destructor calls, '
+    'assignments and reads as a copy/move source hit LIVE slots; no event touches a deallocated block; operator delete '
+    'receives a block without LIVE slots, once; references returned by at/operator[]/front/back designate LIVE slots; '
+    'at every return the block in m_data is [0,m_size) LIVE / rest RAW and has one owner (constructors start without a '
+    'block, after the destructor no block holds a LIVE slot), and a block that is no longer referenced was deallocated '
+    'and holds no LIVE object. Together with the induction over the history this is "constructed elements are destroyed '
+    'exactly once, nothing unconstructed or destroyed is assigned, moved from or read". Lifetimes are decided for these '
+    'sizes only; for larger sizes the claim rests on the uniformity of the code: the element loops of vector.h, ctrdtr.h '
+    'and of the std::move/move_backward helpers have no size-dependent case other than empty/non-empty range, '
+    'm_size == m_capacity (growth) and position == end(), all of which the partition covers. Not decided: exception '
+    'paths, the std_portable.h vector twin, the int instantiation (no lifetime events).')
